@@ -162,10 +162,16 @@ ParseDef(B, p) ==
                     IN IF titleOK THEN [base EXCEPT !.tlo = t0, !.thi = te, !.next = (IF DAt(B, c) = LF THEN c + 1 ELSE c)]
                        ELSE IF atEOL THEN base
                        ELSE NoDef
+\* Named deviation (the implementation's documented choice, see known_findings.json F-C06-indented-following-definition):
+\* a definition that follows another one is recognised only behind at most three spaces; CommonMark strips any
+\* indentation of a paragraph continuation line, but such a block would re-parse as indented code on its own (C16).
+DefIndentLimit == TRUE
+RECURSIVE SkipSpaces3(_, _, _)
+SkipSpaces3(B, i, n) == IF n < 3 /\ DAt(B, i) = SP THEN SkipSpaces3(B, i + 1, n + 1) ELSE i
 \* all leading definitions: [defs (sequence of <<start index, def>>), rest (index of the first content byte that is not part of a definition)]
 RECURSIVE ParseDefs(_, _, _)
 ParseDefs(B, p, acc) ==
-  LET q == DSkipSpTab(B, p)       \* the lines of a paragraph are stripped of leading white space
+  LET q == IF DefIndentLimit /\ p > 1 THEN SkipSpaces3(B, p, 0) ELSE DSkipSpTab(B, p)   \* the lines of a paragraph are stripped of leading white space
       d == ParseDef(B, q)
   IN IF p > Len(B) \/ ~d.ok THEN [defs |-> acc, rest |-> p]
      ELSE ParseDefs(B, d.next, Append(acc, <<q, d>>))
@@ -355,7 +361,7 @@ SkelL(n, src) == [k |-> n.k, s |-> n.s, e |-> n.e, a |-> n.a, t |-> n.t, kids |-
 CONSTANTS MaxLines, ShapeSetName
 Shapes == CASE ShapeSetName = "wide" -> { <<97, 10>>, <<10>>, <<32, 32, 10>>, <<62, 32, 97, 10>>, <<62, 97, 10>>, <<62, 32, 62, 32, 97, 10>>, <<62, 10>>, <<45, 32, 97, 10>>, <<42, 32, 97, 10>>, <<43, 32, 97, 10>>, <<49, 46, 32, 97, 10>>, <<50, 46, 32, 97, 10>>, <<49, 48, 46, 32, 97, 10>>, <<49, 41, 32, 97, 10>>, <<45, 32, 32, 32, 97, 10>>, <<45, 32, 32, 32, 32, 32, 97, 10>>, <<45, 10>>, <<49, 46, 10>>, <<32, 97, 10>>, <<32, 32, 97, 10>>, <<32, 32, 32, 97, 10>>, <<32, 32, 32, 32, 97, 10>>, <<32, 32, 32, 32, 32, 97, 10>>, <<32, 32, 32, 32, 32, 32, 97, 10>>, <<35, 32, 97, 10>>, <<35, 35, 32, 97, 10>>, <<35, 10>>, <<61, 61, 61, 10>>, <<45, 45, 45, 10>>, <<45, 45, 10>>, <<61, 10>>, <<42, 42, 42, 10>>, <<96, 96, 96, 10>>, <<126, 126, 126, 10>>, <<96, 96, 96, 96, 10>>, <<32, 32, 96, 96, 96, 10>>, <<32, 32, 32, 32, 96, 96, 96, 10>>, <<96, 96, 96, 32, 97, 10>>, <<32, 32, 45, 32, 97, 10>>, <<32, 32, 32, 45, 32, 97, 10>>, <<32, 32, 32, 32, 45, 32, 97, 10>>, <<32, 32, 62, 32, 97, 10>>, <<97>>, <<45, 32, 97>>, <<96, 96, 96>>, <<32, 32, 49, 46, 32, 97, 10>>, <<62, 32, 45, 32, 97, 10>>, <<45, 32, 62, 32, 97, 10>>, <<62, 32, 96, 96, 96, 10>>, <<45, 32, 96, 96, 96, 10>> }
             [] ShapeSetName = "core" -> { <<97, 10>>, <<10>>, <<62, 32, 97, 10>>, <<45, 32, 97, 10>>, <<32, 32, 97, 10>>, <<32, 32, 32, 32, 97, 10>>, <<49, 46, 32, 97, 10>>, <<96, 96, 96, 10>>, <<45, 45, 45, 10>>, <<35, 32, 97, 10>>, <<62, 10>>, <<32, 32, 45, 32, 97, 10>> }
-            [] ShapeSetName = "defs" -> { <<91, 97, 93, 58, 32, 47, 117, 10>>, <<91, 97, 93, 58, 10>>, <<47, 117, 10>>, <<34, 116, 34, 10>>, <<91, 97, 93, 58, 32, 47, 117, 32, 34, 116, 10>>, <<117, 34, 10>>, <<120, 10>>, <<62, 32, 91, 97, 93, 58, 32, 47, 117, 10>>, <<62, 32, 34, 116, 34, 10>>, <<45, 32, 91, 97, 93, 58, 10>>, <<32, 32, 47, 117, 10>>, <<61, 61, 61, 10>>, <<10>>, <<91, 97, 93, 58, 32, 47, 117, 32, 34, 116, 34, 32, 120, 10>>, <<91, 98, 93, 58, 32, 60, 118, 32, 119, 62, 32, 39, 116, 39, 10>>, <<32, 91, 97, 93, 58, 32, 47, 117, 10>>, <<32, 32, 91, 98, 93, 58, 32, 47, 118, 10>>, <<91, 97, 93, 58, 32, 47, 117, 32, 40, 116, 41, 10>>, <<62, 32, 120, 10>>, <<42, 42, 42, 10>>, <<91, 97, 93, 10>>, <<91, 97, 93, 58, 32, 60, 62, 10>>, <<91, 97, 10>>, <<98, 93, 58, 32, 47, 117, 10>>, <<91, 97, 93, 58, 32, 47, 117, 32, 39, 116, 39, 32, 32, 10>>, <<32, 32, 32, 39, 117, 39, 32, 121, 10>>, <<91, 97, 93, 58, 32, 47, 117, 92, 10>>, <<91, 93, 58, 32, 47, 117, 10>>, <<91, 97, 93, 32, 58, 32, 47, 117, 10>>, <<91, 97, 93, 58, 47, 117, 10>>, <<35, 32, 104, 10>>, <<91, 97, 93, 58, 32, 47, 117>> }
+            [] ShapeSetName = "defs" -> { <<91, 97, 93, 58, 32, 47, 117, 10>>, <<91, 97, 93, 58, 10>>, <<47, 117, 10>>, <<34, 116, 34, 10>>, <<91, 97, 93, 58, 32, 47, 117, 32, 34, 116, 10>>, <<117, 34, 10>>, <<120, 10>>, <<62, 32, 91, 97, 93, 58, 32, 47, 117, 10>>, <<62, 32, 34, 116, 34, 10>>, <<45, 32, 91, 97, 93, 58, 10>>, <<32, 32, 47, 117, 10>>, <<61, 61, 61, 10>>, <<10>>, <<91, 97, 93, 58, 32, 47, 117, 32, 34, 116, 34, 32, 120, 10>>, <<91, 98, 93, 58, 32, 60, 118, 32, 119, 62, 32, 39, 116, 39, 10>>, <<32, 91, 97, 93, 58, 32, 47, 117, 10>>, <<32, 32, 91, 98, 93, 58, 32, 47, 118, 10>>, <<91, 97, 93, 58, 32, 47, 117, 32, 40, 116, 41, 10>>, <<62, 32, 120, 10>>, <<42, 42, 42, 10>>, <<91, 97, 93, 10>>, <<91, 97, 93, 58, 32, 60, 62, 10>>, <<91, 97, 10>>, <<98, 93, 58, 32, 47, 117, 10>>, <<91, 97, 93, 58, 32, 47, 117, 32, 39, 116, 39, 32, 32, 10>>, <<32, 32, 32, 39, 117, 39, 32, 121, 10>>, <<91, 97, 93, 58, 32, 47, 117, 92, 10>>, <<91, 93, 58, 32, 47, 117, 10>>, <<91, 97, 93, 32, 58, 32, 47, 117, 10>>, <<91, 97, 93, 58, 47, 117, 10>>, <<35, 32, 104, 10>>, <<91, 97, 93, 58, 32, 47, 117>>, <<32, 32, 32, 32, 91, 98, 93, 58, 32, 47, 118, 10>>, <<9, 91, 98, 93, 58, 32, 47, 118, 10>> }
             [] ShapeSetName = "tabs" -> { <<45, 32, 96, 96, 96, 10>>, <<32, 32, 96, 96, 96, 10>>, <<32, 32, 9, 120, 10>>, <<32, 32, 120, 10>>, <<9, 120, 10>>, <<62, 32, 96, 96, 96, 10>>, <<62, 32, 9, 120, 10>>, <<62, 9, 120, 10>>, <<96, 96, 96, 10>>, <<32, 9, 120, 10>>, <<49, 46, 32, 96, 96, 96, 10>>, <<32, 32, 32, 9, 120, 10>>, <<32, 32, 32, 96, 96, 96, 10>>, <<10>>, <<120, 10>>, <<32, 32, 32, 32, 9, 120, 10>>, <<45, 32, 9, 120, 10>>, <<32, 96, 96, 96, 10>>, <<45, 9, 120, 10>>, <<9, 9, 120, 10>>, <<32, 9, 45, 32, 120, 10>>, <<49, 46, 9, 120, 10>> }
 VARIABLES doc
 Init == doc = <<>>
